@@ -140,8 +140,12 @@ def rule_dfs(A: Analysis, rep):
             gs2 = A.path_guards(g, be, succ_push[0][0], fi)
             allowed = [{("in(%s,%s)" % (norm(l.target), f), False)} for f in F] + [set()]
             ok_guard = all(any(set(c) == a for a in allowed) for c in gs2) and bool(gs2) and norm(succ_push[0][1].args[0].elts[0]) == norm(l.target)
-            ok = ok_src and ok_guard
-            det = "deps source `%s`, push guard [%s]" % (src, " | ".join(fmt_conj(c) for c in gs2))
+            # the deps loop itself is reached on every first visit: from a mark of the on-path set, no way back to the
+            # worklist header that avoids it (a task whose dependencies are not followed is not validated)
+            first_marks = [mn for (mn, _k2) in w.marks(P[0])] if P else []
+            ok_reach = bool(first_marks) and all(w.reaches_backedge([m for (m, lb) in mn.succ if not is_exc(lb)], removed=[hdr]) is None for mn in first_marks)
+            ok = ok_src and ok_guard and ok_reach
+            det = "deps source `%s`, push guard [%s], deps loop on every first visit=%s" % (src, " | ".join(fmt_conj(c) for c in gs2), ok_reach)
         rep.check(ok, "DFS2", "%s: every dependency is followed" % name, w.loop, "all of task.deps are pushed (only finished ones may be skipped)", det)
     rep.expect_min("DFS1", 8)
     # TaskNotFound is raised, not swallowed
